@@ -690,6 +690,24 @@ func (env *SpecEnv) evalCall(x *ECall) (sval, error) {
 				return sval{t: fmt.Sprintf("(or (= (sbase %s) nil) (>= (pobj (sbase %s)) %s))", v.t, v.t, env.old.alloc), sort: "Bool"}, nil
 			}
 			return sval{}, fmt.Errorf("fresh of sort %s", v.sort)
+		case "same":
+			// same(a, b): identical values (for slices: same backing store,
+			// offset, length and capacity — not just equal contents).
+			if len(x.Args) != 2 {
+				return sval{}, fmt.Errorf("same takes two arguments")
+			}
+			a, err := env.eval(x.Args[0])
+			if err != nil {
+				return sval{}, err
+			}
+			b, err := env.eval(x.Args[1])
+			if err != nil {
+				return sval{}, err
+			}
+			if a.sort != b.sort {
+				return sval{}, fmt.Errorf("same: sorts %s and %s differ", a.sort, b.sort)
+			}
+			return sval{t: Eq(a.t, b.t), sort: "Bool"}, nil
 		case "isnil":
 			v, err := env.eval(x.Args[0])
 			if err != nil {
